@@ -50,6 +50,80 @@ def random_distribution(rng, al, max_symbol):
     return probs if probs and len(probs) <= max_symbol + 1 else None
 
 
+
+def production_tables(chk, rng, thorough):
+    """the table descriptions the compressor writes into real blocks (its production parameters): each must parse
+    under the format's limits (LL/ML accuracy log <= 9, OF <= 8; alphabets 36 / 53 / 32)"""
+    import encgen, framegen
+    lines = []
+    for i in range(30 if thorough else 10):
+        h0 = rng.bytes(70000)
+        cur = bytearray()
+        seqs = []
+        lo = rng.choice([4, 4, 5])
+        cnt = rng.choice([24, 28, 31, 31, 60])
+        codes = [lo] + [c for c in range(lo + 1, 16) for _ in range(cnt)]
+        for j in range(len(codes) - 1, 0, -1):
+            k = rng.below(j + 1)
+            codes[j], codes[k] = codes[k], codes[j]
+        for c in codes:
+            ll = rng.choice([0, 1, 2, 3, 17, 40]) if i % 2 else rng.choice([1, 2, 3])
+            cur += rng.bytes(ll)
+            off = max(1, (1 << c) + rng.below(1 << c) - 3)
+            ml = rng.choice([3, 8, 16, 35, 70]) if i % 2 else 8
+            cur += encgen.fast_copy(h0 + bytes(cur), off, ml)
+            seqs.append((ll, off, ml))
+        lines.append('rencm 1 131072 %s+%s' % (encgen.block_spec(h0, []), encgen.block_spec(bytes(cur), seqs)))
+    res = zh_par('codec', lines)
+    seen = {'ll': 0, 'of': 0, 'ml': 0}
+    maxlog = {'ll': 0, 'of': 0, 'ml': 0}
+    for ln, r in zip(lines, res):
+        w = (r or 'missing').split()
+        if w[0] != 'ok':
+            chk.violation('the compressor %s on a block with a flat offset-code histogram' % ('panicked' if w[0] == 'panic' else 'failed'),
+                          {'component': 'production-tables', 'command': ln[:300000], 'how': 'echo "<command>" | _build/cargo/release/zh codec'})
+            continue
+        f = unhex(w[1])
+        wb = framegen.walk_blocks(f)
+        for (p, last, ty, size, body) in (wb[1] if wb else []):
+            if ty != 2:
+                continue
+            b = f[p + 3:p + 3 + body]
+            # literals section: only raw / RLE literals are walked here
+            lt, sf = b[0] & 3, (b[0] >> 2) & 3
+            if lt > 1:
+                continue
+            hl = 1 if sf in (0, 2) else 2 if sf == 1 else 3
+            n = (b[0] >> 3) if hl == 1 else (int.from_bytes(b[:hl], 'little') >> 4)
+            q = hl + (n if lt == 0 else 1)
+            ns = b[q]
+            q += 1
+            if ns == 0:
+                continue
+            if ns >= 128:
+                q += 1 if ns < 255 else 2
+            modes = b[q]
+            q += 1
+            for kind, shift, mlog, msym in (('ll', 6, 9, 35), ('of', 4, 8, 31), ('ml', 2, 9, 52)):
+                m = (modes >> shift) & 3
+                if m == 1:
+                    q += 1
+                elif m == 2:
+                    d = entropy_spec.fse_read_description(b[q:], mlog, msym)
+                    if d is None:
+                        al = 5 + (b[q] & 15)
+                        chk.violation('the compressor wrote a %s table description the format does not allow (accuracy log field %d, limit %d, or malformed)' % (
+                            {'ll': 'literal-length', 'of': 'offset', 'ml': 'match-length'}[kind], al, mlog),
+                            {'component': 'production-tables', 'command': ln[:300000], 'how': 'echo "<command>" | _build/cargo/release/zh codec ; parse the sequences section of the compressed block'})
+                        return
+                    seen[kind] += 1
+                    maxlog[kind] = max(maxlog[kind], d[0])
+                    q += d[2]
+    chk.add_samples('production-tables', len(lines), len(set(lines)), [{'command': lines[0][:120]}],
+                    rule='blocks whose offset codes have a flat histogram over codes 5..15 plus one rare code (normalised sum above 256), with fixed and varied literal / match length codes, compressed through a scripted matcher; every table description in the emitted blocks is parsed with an independent RFC reader under the format limits')
+    chk.cov['components']['production-tables'].update({'descriptions_parsed': seen, 'largest_accuracy_log': maxlog})
+
+
 def run(chk):
     rng = SplitMix64(chk.seed).fork('C12')
     thorough = chk.tier == 'thorough'
@@ -189,3 +263,4 @@ def run(chk):
             chk.violation('FSE round trip failed: %s' % r, {'component': 'fsert', 'input': ln[:200000], 'how': 'echo "<input>" | _build/cargo/release/zh entropy'})
     chk.cov['components']['fsert'] = {'evaluations': len(rl)}
     chk.cov['evaluations'] += len(rl)
+    production_tables(chk, rng, thorough)
